@@ -741,6 +741,34 @@ def extract_item(repo, item, log):
     original = src[loc["sig_start"]:loc["end"]]
     line_start = src.count("\n", 0, loc["sig_start"]) + 1
     line_end = src.count("\n", 0, loc["end"]) + 1
+    frag = item.get("fragment")
+    if frag:
+        # FRAGMENT: a statement sequence of the located function (from the literal `start` anchor to the end of the
+        # literal `end` anchor, both inclusive, each occurring exactly once) wrapped into a synthetic fn whose signature
+        # (the fragment's free variables with their types) is stated in the unit.  The statements are the repository text.
+        body = original
+        if body.count(frag["start"]) != 1 or body.count(frag["end"]) != 1:
+            raise Undecided("fragment anchors of %s found %d / %d times" % (name, body.count(frag["start"]), body.count(frag["end"])))
+        a = body.index(frag["start"])
+        b = body.index(frag["end"]) + len(frag["end"])
+        if b <= a:
+            raise Undecided("fragment anchors of %s out of order" % name)
+        line_start = src.count("\n", 0, loc["sig_start"] + a) + 1
+        line_end = src.count("\n", 0, loc["sig_start"] + b) + 1
+        piece = body[a:b]
+        log.append(dict(item=name, rule="FRAGMENT", before="statements %d..%d of %s" % (line_start, line_end, item["path"][-1]),
+                        after=frag["signature"], times=1))
+        original = piece
+        name = frag["name"]
+        item = dict(item, name=name)
+        sha = hashlib.sha256(original.encode()).hexdigest()
+        text = "%s {\n        %s\n        %s\n}" % (frag["signature"], piece, frag.get("tail", ""))
+        text = apply_edits(text, item.get("edits"), log, name)
+        text = splice_fn(text, item, log)
+        diff = "".join(difflib.unified_diff(original.splitlines(True), text.splitlines(True),
+                                            "repo:%s:%d" % (path, line_start), "unit:%s" % name, n=1))
+        return dict(name=name, text=text, file=path, line_start=line_start, line_end=line_end,
+                    sha256=sha, diff=diff, original=original)
     sha = hashlib.sha256(original.encode()).hexdigest()
     text = strip_attrs_and_docs(original, log, name)
     if item.get("strip_vis", True):
